@@ -269,3 +269,92 @@ class SD(IntegratorStep):
         d_y[d_idx] += 0.5*dt*d_v[d_idx]
         d_q[d_idx] = d_q[d_idx]*0.5 + t + dt
         d_tr[d_idx] = (d_tr[d_idx]*31 + 41) % 1000003
+
+
+# ------------------------------------------------- added by the coverage audit
+class AccThird(Equation):
+    """Third equation set (index 2)."""
+    def __init__(self, dest, sources, c=1.0):
+        self.c = c
+        super(AccThird, self).__init__(dest, sources)
+
+    def initialize(self, d_idx, d_au, d_av):
+        d_au[d_idx] = 0.5*d_au[d_idx]
+        d_av[d_idx] = -0.5*d_av[d_idx]
+
+    def loop(self, d_idx, s_idx, d_au, d_av, s_m, XIJ, dt):
+        d_au[d_idx] += self.c*s_m[s_idx]*XIJ[0]*0.03125 - dt*0.25
+        d_av[d_idx] += self.c*s_m[s_idx]*XIJ[1]*0.03125
+
+
+class SF(IntegratorStep):
+    """Constructor arguments (two instances of one class with different
+    values), and a py_stage2 hook without a stage2 method: when the
+    integrator calls stage2 this array gets the hook only."""
+    def __init__(self, a=0.25, b=2.0):
+        self.a = a
+        self.b = b
+
+    def initialize(self, d_idx, d_tr, d_x0, d_x):
+        d_x0[d_idx] = d_x[d_idx]
+        d_tr[d_idx] = (d_tr[d_idx]*31 + 61) % 1000003
+
+    def stage1(self, d_idx, d_x, d_y, d_u, d_v, d_au, d_av, d_tr, d_q, t,
+               dt):
+        d_u[d_idx] += self.a*dt*d_au[d_idx]
+        d_v[d_idx] += self.a*dt*d_av[d_idx]
+        d_x[d_idx] += self.a*dt*d_u[d_idx]
+        d_y[d_idx] += self.a*dt*d_v[d_idx]
+        d_q[d_idx] = d_q[d_idx]*0.5 + self.b*t + dt
+        d_tr[d_idx] = (d_tr[d_idx]*31 + 62) % 1000003
+
+    def py_stage2(self, dst, t, dt):
+        PYLOG.append(('py_stage2', dst.name, float(t), float(dt),
+                      int(dst.get_number_of_particles(True))))
+        tr = dst.get_carray('tr').get_npy_array()
+        if len(tr) > 0:
+            tr[-1] = (tr[-1]*31 + 63) % 1000003
+
+
+class I3Keywords(Integrator):
+    def one_timestep(self, t, dt):
+        """Keyword forms of compute_accelerations; three equation sets; a
+        docstring and comments inside the pasted source."""
+        self.initialize()
+        # set 1 first, by keyword
+        self.compute_accelerations(index=1)
+        self.stage1()
+        self.do_post_stage(0.25*dt, 1)
+        self.compute_accelerations(update_nnps=False)
+        self.stage2()
+        self.update_domain()
+        self.do_post_stage(0.5*dt, 2)
+        self.compute_accelerations(2, False)
+        self.stage3()
+        self.update_domain()
+        self.compute_accelerations(index=2, update_nnps=True)
+        self.do_post_stage(dt, 3)
+
+
+class I4Loop(Integrator):
+    def one_timestep(self, t, dt):
+        # control flow, locals and expressions in t and dt are executed as
+        # written
+        self.initialize()
+        half = 0.5*dt
+        for i in range(2):
+            self.compute_accelerations(0, i == 0)
+            self.stage1()
+            self.do_post_stage((i + 1)*0.25*dt, i + 1)
+        if t > 0.75:
+            self.stage2()
+            self.update_domain()
+        else:
+            self.update_domain()
+            self.stage2()
+        self.do_post_stage(half +
+                           0.5*dt, 3)
+
+
+class I1Sub(I1):
+    """Inherits one_timestep."""
